@@ -500,6 +500,19 @@ def is_traceback(stderr):
 # --------------------------------------------------------------------------------------------- in-process runs
 
 
+def prepare_inprocess():
+    """Call before sqlfluff is used in this process.  tqdm starts a monitor *thread* on the first tqdm() call (even with
+    disable=True); a process forked while that thread holds tqdm's lock (framework workers, VERIF_CLI_FORK children)
+    inherits the lock locked for ever and, through tqdm's process-shared semaphore, blocks its parent and siblings as
+    well.  monitor_interval = 0 means the thread is never created."""
+    try:
+        import tqdm
+
+        tqdm.tqdm.monitor_interval = 0
+    except Exception:  # pragma: no cover
+        pass
+
+
 def overrides_of(case, **extra):
     cli = case.get("cli") or {}
     ov = {}
@@ -518,6 +531,7 @@ def file_config(project, **extra):
     process cwd and the file; the harness cwd has no config file and HOME is an empty scratch directory.)"""
     from sqlfluff.core import FluffConfig
 
+    prepare_inprocess()
     return FluffConfig.from_path(os.path.dirname(project.path), overrides=overrides_of(project.case, **extra),
                                  require_dialect=False)
 
@@ -525,6 +539,7 @@ def file_config(project, **extra):
 def root_config(project, **extra):
     from sqlfluff.core import FluffConfig
 
+    prepare_inprocess()
     return FluffConfig.from_path(project.root, overrides=overrides_of(project.case, **extra), require_dialect=False)
 
 
@@ -697,6 +712,7 @@ def assert_clean_ancestors():
 
 
 def selftest_models():
+    prepare_inprocess()
     assert_clean_ancestors()
     d = parse_noqa("a -- noqa\nb  -- noqa: PRS,TMP\n-- noqa: disable=all\nc\n-- noqa: enable=all\nd --noqa:LT01\n"
                    "e -- noqa: disable=LT01\nf")
